@@ -922,11 +922,14 @@ func (h *c14H) doMany(op c14Op, stale bool) error {
 	staleFired, recordChanged := false, false
 	if stale {
 		what = fmt.Sprintf("%s [record of %s changed meanwhile by: %s]", what, op.Snap, op.Interf)
+		// refresh-many leaves out snaps that are not active: the request operates on op.Snap
+		// only if it was installed and active when the request was prepared
+		_, staleOperable := h.present(op.Snap)
 		h.store.hook = func() {
 			staleFired = true
 			recBefore := h.recordJSON(op.Snap)
 			h.interfere(op.Snap, op.Interf)
-			recordChanged = h.recordJSON(op.Snap) != recBefore
+			recordChanged = staleOperable && h.recordJSON(op.Snap) != recBefore
 			exp = compute()
 			before = h.snapshot()
 			if recordChanged {
@@ -1292,6 +1295,8 @@ func c14Run(c *check.C, cs c14Case) (verifkit.Outcome, error) {
 	add(h.sawMany, "many")
 	add(h.sawDowngrade, "snapd-downgrade")
 	add(h.sawAliasOverlap, "alias-vs-change")
+	add(o.Extra["known_F-C14-2"] > 0, "continued-past-known:F-C14-2")
+	add(o.Extra["known_F-C14-1"] > 0, "continued-past-known:F-C14-1")
 	o.Desc = fmt.Sprintf("%d ops: %d accepted, %d refused (%d conflict), %d overlapping, %d vs exclusive, %d stale; last: %s",
 		len(cs.Ops), o.Extra["requests_accepted"], o.Extra["requests_refused"], o.Extra["requests_refused_conflict"],
 		o.Extra["requests_overlapping"], o.Extra["requests_vs_exclusive"], o.Extra["stale_requests"], strings.Join(h.hist[c14Max(0, len(h.hist)-3):], " | "))
